@@ -322,6 +322,7 @@ rfbClient* rfbGetClient(int bitsPerSample,int samplesPerPixel,
 #ifdef LIBVNCSERVER_HAVE_LIBZ
   client->raw_buffer_size = -1;
   client->decompStreamInited = FALSE;
+  client->zrleStreamInited = FALSE;
 
 #ifdef LIBVNCSERVER_HAVE_LIBJPEG
   memset(client->zlibStreamActive,0,sizeof(rfbBool)*4);
@@ -528,6 +529,11 @@ void rfbClientCleanup(rfbClient* client) {
     if (inflateEnd (&client->decompStream) != Z_OK &&
 	client->decompStream.msg != NULL)
       rfbClientLog("inflateEnd: %s\n", client->decompStream.msg );
+  }
+  if ( client->zrleStreamInited == TRUE ) {
+    if (inflateEnd (&client->zrleStream) != Z_OK &&
+	client->zrleStream.msg != NULL)
+      rfbClientLog("inflateEnd: %s\n", client->zrleStream.msg );
   }
 
 #ifdef LIBVNCSERVER_HAVE_LIBJPEG
